@@ -130,7 +130,7 @@ pub fn run(args: &[String]) {
     let classes: Vec<&'static str> = args[5].split(',').map(|c| *inputs::CLASSES.iter().find(|x| **x == c).expect("bad class")).collect();
     let basis_max: usize = args[6].parse().unwrap();
     let full_max: usize = args[7].parse().unwrap();
-    let kinds: Vec<Kind> = if args.get(8).map(|s| s.as_str()).unwrap_or("all") == "all" { Kind::ALL.to_vec() } else { args[8].split(',').map(Kind::parse).collect() };
+    let kinds: Vec<Kind> = if args.get(8).map(|s| s.as_str()).unwrap_or("all") == "all" { avail() } else { args[8].split(',').map(Kind::parse).collect() };
     let seed = seed_from_env() ^ 0x1234;
     let mut ns: Vec<usize> = (lo..hi).collect();
     ns.extend(crate::k1::structured(seed, nstruct, max_bits).into_iter().filter(|&n| n >= 1));
